@@ -317,3 +317,11 @@ func f32bits(p *hagallpb.Pose) [7]uint32 {
 func poseFromBits(b [7]uint32) *hagallpb.Pose {
 	return &hagallpb.Pose{Px: math.Float32frombits(b[0]), Py: math.Float32frombits(b[1]), Pz: math.Float32frombits(b[2]), Rx: math.Float32frombits(b[3]), Ry: math.Float32frombits(b[4]), Rz: math.Float32frombits(b[5]), Rw: math.Float32frombits(b[6])}
 }
+
+func mustMarshal(p proto.Message) []byte {
+	b, err := proto.Marshal(p)
+	if err != nil {
+		panic(err)
+	}
+	return b
+}
